@@ -481,6 +481,13 @@ class AttributeSet(TypedExpression):
                     self._replace_attrpath_family(key, binding)
                 return
         new_binding = Binding(name=key, value=value)
+        render_order = self.attrpath_order if self.attrpath_order else self.values
+        if render_order:
+            last_after = getattr(render_order[-1], "after", None)
+            if last_after and last_after[-1] is empty_line:
+                # The blank line in front of the closing brace stays there.
+                last_after.pop()
+                new_binding.after.append(empty_line)
         self.values.append(new_binding)
         if self.attrpath_order:
             self.attrpath_order.append(new_binding)
